@@ -10,7 +10,7 @@
 EXTENDS ManifestWire
 \* (the case families take a dummy argument: TLC evaluates nullary constant definitions at start-up,
 \* every family would be built for every configuration)
-CONSTANTS Family, A1, A2, ShardCheck
+CONSTANTS Family, A1, A2, ShardCheck, Quick     \* Quick: the smaller case sets of the quick tier
 VARIABLES x, ph      \* ph = "part": x is a partition number; ph = "case": x is a case
 
 Pat(seed, n) == [i \in 1..n |-> (seed * 37 + i * 11) % 256]
@@ -29,29 +29,30 @@ Expiries == { [s |-> Rep(0, 8), f |-> 0], [s |-> Rep(255, 8), f |-> 0], [s |-> R
               [s |-> MaxSec, f |-> 854775807],
               [s |-> <<255, 255, 255, 253, 218, 62, 130, 251>>, f |-> 145224192] }   \* time_point::min()
 
-Shard1 == {[i |-> a, v |-> Pat(b, 32)] : a \in {0, 255}, b \in {5, 6}}
+Shard1 == {[i |-> a, v |-> Pat(b, 32)] : a \in {0, 255}, b \in IF Quick THEN {5} ELSE {5, 6}}
 FamShards(u_) == {[Base EXCEPT !.shards = sh, !.thr = t[1], !.tot = t[2], !.exp = e, !.hasdig = d[1], !.dig = d[2]] :
-                 sh \in Lists(0, Shard1, Shard1), t \in {<<0, 255>>, <<255, 0>>}, e \in Expiries,
+                 sh \in Lists(0, Shard1, Shard1), t \in IF Quick THEN {<<0, 255>>} ELSE {<<0, 255>>, <<255, 0>>}, e \in Expiries,
                  d \in {<<TRUE, Zero32>>, <<TRUE, Pat(9, 32)>>, <<FALSE, Zero32>>, <<FALSE, Pat(9, 32)>>}}
 
 Meta1(A) == {[k |-> k, v |-> v] : k \in Strs(A, 2), v \in Strs(A, 2)}
 FamMeta(u_) == {[Base EXCEPT !.meta = ml] :
               ml \in {<<>>} \cup {<<a>> : a \in Meta1(A1)}
-                     \cup {ab \in {<<a, b>> : a \in Meta1(A1), b \in Meta1(A1)} : LexLess(ab[1].k, ab[2].k)}}
+                     \cup {ab \in {<<a, b>> : a \in Meta1(IF Quick THEN A2 ELSE A1), b \in Meta1(IF Quick THEN A2 ELSE A1)} : LexLess(ab[1].k, ab[2].k)}}
 
-Disc1(A) == {[sch |-> s, tr |-> t, ep |-> e, pr |-> p] : s \in Strs(A, 2), t \in Strs(A, 2), e \in Strs(A, 2), p \in {0, 255}}
+Disc1(A) == {[sch |-> s, tr |-> t, ep |-> e, pr |-> p] : s \in Strs(A, 2), t \in Strs(A, 2), e \in Strs(A, 2), p \in IF Quick THEN {255} ELSE {0, 255}}
 FamDisc(u_) == {[Base EXCEPT !.disc = dl] : dl \in Lists(0, Disc1(A1), Disc1(A2))}
 
 Fb1(A) == {[uri |-> u, pr |-> p] : u \in Strs(A, 2), p \in {0, 255}}
-FamFb(u_) == {[Base EXCEPT !.fb = fl, !.adv = a, !.tcb = t] : fl \in Lists(0, Fb1(A1), Fb1(A1)), a \in Strs(A1, 2), t \in {0, 255}}
+FamFb(u_) == {[Base EXCEPT !.fb = fl, !.adv = a, !.tcb = t] : fl \in Lists(0, Fb1(A1), Fb1(IF Quick THEN A2 ELSE A1)), a \in Strs(IF Quick THEN A2 ELSE A1, 2), t \in {0, 255}}
 
+LensParams == {q \in (0..2) \X (0..2) \X BOOLEAN : ~Quick \/ (q[2] = (q[1] + 1) % 3 /\ q[3] = (q[1] = 1))}
 \* all four lists at sizes 0..2 together; string lengths 0..2 by field group
 FamLens(u_) == {[Base EXCEPT !.shards = [i \in 1..c[1] |-> [i |-> i, v |-> Pat(i, 32)]],
-                         !.meta = [i \in 1..c[2] |-> [k |-> Rep(96 + i, la + i - 1), v |-> Rep(48 + i, lb)]],
-                         !.disc = [i \in 1..c[3] |-> [sch |-> Rep(115, la), tr |-> Rep(116, lb), ep |-> Rep(101, IF i = 1 THEN la ELSE lb), pr |-> i]],
-                         !.fb = [i \in 1..c[4] |-> [uri |-> Rep(117, IF i = 1 THEN la ELSE lb), pr |-> 255 - i]],
-                         !.adv = Rep(97, lb), !.hasdig = h, !.dig = Pat(7, 32)] :
-               c \in (0..2) \X (0..2) \X (0..2) \X (0..2), la \in 0..2, lb \in 0..2, h \in BOOLEAN}
+                         !.meta = [i \in 1..c[2] |-> [k |-> Rep(96 + i, q[1] + i - 1), v |-> Rep(48 + i, q[2])]],
+                         !.disc = [i \in 1..c[3] |-> [sch |-> Rep(115, q[1]), tr |-> Rep(116, q[2]), ep |-> Rep(101, IF i = 1 THEN q[1] ELSE q[2]), pr |-> i]],
+                         !.fb = [i \in 1..c[4] |-> [uri |-> Rep(117, IF i = 1 THEN q[1] ELSE q[2]), pr |-> 255 - i]],
+                         !.adv = Rep(97, q[2]), !.hasdig = q[3], !.dig = Pat(7, 32)] :
+               c \in (0..2) \X (0..2) \X (0..2) \X (0..2), q \in LensParams}
 
 \* ---- boundary manifests (full content, one field at a boundary) --------------------------
 Key2(i) == <<107, i \div 256, i % 256>>
@@ -103,8 +104,8 @@ ExtremeSecs == { Rep(255, 8), Rep(0, 8), <<127, 255, 255, 255, 255, 255, 255, 25
 SetAt(b, i, val) == [b EXCEPT ![i] = val]
 \* offsets (1-based) of the count / length bytes of a layout: every byte is tried at 255
 BadChars == {0, 10, 32, 45, 95, 61, 128, 255, 64, 91}
-MutOf(m) ==
-    UNION { LET b == Layout(m, v, "trunc")
+MutOfV(m, v) ==
+          ( LET b == Layout(m, v, "trunc")
                 u == Uri(b)
             IN {[kind |-> "trunc", v |-> v, k |-> k, full |-> Len(b), chars |-> Uri(SubSeq(b, 1, k))] : k \in 0..Len(b)}
                \cup {[kind |-> "max", v |-> v, k |-> k, full |-> Len(b), chars |-> Uri(SetAt(b, k, 255))] : k \in 86..Len(b)}
@@ -117,21 +118,23 @@ MutOf(m) ==
                \cup {[kind |-> "b64char", v |-> v, k |-> j * 1000 + c, full |-> Len(b), chars |-> SetAt(u, j, c)] : j \in {7, 8, 9, 10, Len(u) - 1, Len(u)}, c \in BadChars}
                \cup {[kind |-> "prefix", v |-> v, k |-> j, full |-> Len(b), chars |-> SetAt(u, j, 88)] : j \in 1..6}
                \cup {[kind |-> "prefix", v |-> v, k |-> 10 + j, full |-> Len(b), chars |-> SubSeq(u, 1 + j, Len(u))] : j \in 1..6}
-               \cup {[kind |-> "prefix", v |-> v, k |-> 20 + j, full |-> Len(b), chars |-> SubSeq(u, 1, j)] : j \in 0..6}
-            : v \in 1..4 }
-FamMut(u_) == UNION {MutOf(m) : m \in MutBases}
+               \cup {[kind |-> "prefix", v |-> v, k |-> 20 + j, full |-> Len(b), chars |-> SubSeq(u, 1, j)] : j \in 0..6} )
+MutBaseSeq == SetToSeq(MutBases)
+FamMut(u_) == UNION {MutOfV(m, v) : m \in MutBases, v \in 1..4}
 
 Cases == CASE Family = "shards" -> FamShards(0) [] Family = "meta" -> FamMeta(0) [] Family = "disc" -> FamDisc(0)
            [] Family = "fb" -> FamFb(0) [] Family = "lens" -> FamLens(0) [] Family = "bounds" -> FamBounds(0)
-           [] Family = "shapes1" -> Shapes1(0) [] Family = "shapes2" -> Shapes1(0) \cup Shapes2(0) [] Family = "mut" -> FamMut(0)
+           [] Family = "shapes1" -> Shapes1(0) [] Family = "shapes2" -> Shapes1(0) \cup Shapes2(0) [] Family = "mut" -> {}   \* (built per partition in Next)
 
 \* Init states are evaluated by one thread; the cases are therefore the successors of NParts
 \* partition states so that the workers share the lemma evaluations.
-NParts == 32
-CaseSeq == SetToSeq(Cases)
+NParts == IF Family = "mut" THEN 4 * Len(MutBaseSeq) ELSE 32
+CaseSeq == IF Family = "mut" THEN <<>> ELSE SetToSeq(Cases)
 Init == ph = "part" /\ x \in 1..NParts
 Next == /\ ph = "part" /\ ph' = "case"
-        /\ \E j \in {j \in 1..Len(CaseSeq) : j % NParts = x % NParts} : x' = CaseSeq[j]
+        /\ IF Family = "mut"       \* one partition per (base manifest, version): built by the worker
+           THEN x' \in MutOfV(MutBaseSeq[((x - 1) \div 4) + 1], ((x - 1) % 4) + 1)
+           ELSE \E j \in {j \in 1..Len(CaseSeq) : j % NParts = x % NParts} : x' = CaseSeq[j]
 Spec == Init /\ [][Next]_<<x, ph>>
 
 \* ---- invariants ------------------------------------------------------------------------------
